@@ -26,7 +26,7 @@ KF_COPY = "C35-copy-to-options-dropped"
 KF_LIMIT = "C35-limit-zero-skip-expression-dropped"
 KF_QUALIFY = "C35-unqualified-column-requalified-by-decoder"
 KF_FETCH = "C35-limit-fetch-none-decoded-as-i64-max"
-KF_UNION = "C35-nested-union-flattened-by-decoder"
+KF_UNION = "C35-union-nesting-not-preserved"
 
 # (key, required substring of some differing line, normaliser applied to both lines of every differing line pair)
 TEXT_CLASSES = [
@@ -40,7 +40,7 @@ TEXT_CLASSES = [
 
 
 def flatten_unions(text):
-    """remove `Union [..]` lines whose parent line is a Union (and dedent their subtrees): the decoder's LogicalPlanBuilder::union flattens"""
+    """remove `Union [..]` lines whose parent line is a Union (and dedent their subtrees): the decoder rebuilds an n-ary Union as nested binary ones"""
     lines = text.split("\n")
     ind = lambda l: len(l) - len(l.lstrip(" "))
     changed = True
@@ -85,7 +85,7 @@ def classify_plan(st):
         elif "Union" in plan and not plan.endswith("..."):
             back = why.split("\n", 1)[1]
             nn = lambda t: t.replace(";N", "").rstrip("\n")
-            if nn(flatten_unions(plan)) == nn(back) and nn(plan) != nn(back):
+            if nn(flatten_unions(back)) == nn(flatten_unions(plan)) and nn(plan) != nn(back):
                 return KF_UNION
     return None
 
